@@ -30,6 +30,9 @@ pub struct Case {
     pub idle_units: u8,
     pub start_t: u32,
     pub frames: u8,
+    /// a host I/O extender that claims only port 0xCCCC is attached: ULA writes are not its business
+    #[serde(default)]
+    pub extender: bool,
 }
 
 const BASE: u16 = 0x8000;
@@ -71,6 +74,10 @@ pub fn check(c: &Case, rec: &mut Rec) -> Result<(), String> {
     let frame_len = machine.frame_len() as u64;
     let mut e = mk_emu(&EmuOpts::new(machine));
     let mut mem = MemModel::new(machine, mach::rom_images(machine));
+    if c.extender {
+        e.set_io_extender(crate::host::LoggingExtender::new(vec![(0xFFFF, 0xCCCC)], 0x5A));
+        rec.class("io-extender-attached");
+    }
     let prog = program(c);
     mach::poke_bytes(&mut e, &mut mem, BASE, &prog);
     let regs = RegFile { pc: BASE, sp: 0xBF00, ..Default::default() };
@@ -209,6 +216,10 @@ pub struct SnapCase {
     pub machine: Machine,
     pub border: u8,
     pub prior: u8,
+    /// the snapshot is an SZX whose "last byte written to port 0xFE" field differs from its
+    /// border field (the border field is the border)
+    #[serde(default)]
+    pub szx: bool,
 }
 
 /// the border stored in a loaded snapshot is reported and shown
@@ -225,6 +236,27 @@ pub fn check_snapshot(c: &SnapCase, rec: &mut Rec) -> Result<(), String> {
     let code_bank = if machine == Machine::K48 { 1 } else { 2 };
     ram[code_bank][0..3].copy_from_slice(&[0xF3, 0x18, 0xFE]);
     let mut regs = RegFile { pc: BASE, sp: 0xBF00, im: 1, ..Default::default() };
+    if c.szx {
+        use crate::formats::szx;
+        let st = szx::SzxState {
+            machine_id: if machine == Machine::K48 { 1 } else { 2 },
+            regs: regs.clone(),
+            memptr: 0,
+            cycles: 100,
+            halted: false,
+            ei_last: false,
+            f_set: false,
+            border: c.border & 7,
+            latch: 0,
+            fe: (c.prior & 7) | 0x10,
+            ay: None,
+            kempston_joystick: None,
+            mouse: None,
+        };
+        let file = szx::write(&st, &ram, &szx::Layout::default());
+        e.load_snapshot(Snapshot::Szx(MemAsset::new(file))).map_err(|x| format!("load_snapshot(SZX): {:?}", x))?;
+        rec.class("snapshot-border:szx-with-fe-field-different-from-border");
+    }
     let file = if machine == Machine::K48 {
         regs.sp = 0xBEFE;
         ram[1][0x3EFE] = BASE as u8;
@@ -233,7 +265,9 @@ pub fn check_snapshot(c: &SnapCase, rec: &mut Rec) -> Result<(), String> {
     } else {
         sna::write_128k(&sna::SnaState { regs, border: c.border & 7, latch: 0, is_128k: true }, &ram)
     };
-    e.load_snapshot(Snapshot::Sna(MemAsset::new(file))).map_err(|x| format!("load_snapshot: {:?}", x))?;
+    if !c.szx {
+        e.load_snapshot(Snapshot::Sna(MemAsset::new(file))).map_err(|x| format!("load_snapshot: {:?}", x))?;
+    }
     rec.eval();
     let got: u8 = e.border_color().into();
     if got != c.border & 7 {
@@ -306,11 +340,11 @@ pub fn case_strategy() -> impl Strategy<Value = Case> {
         any::<u32>(),
         2u8..6,
     )
-        .prop_map(|(machine, segs, idle_units, start_t, frames)| Case { machine, segs, idle_units, start_t, frames })
+        .prop_map(|(machine, segs, idle_units, start_t, frames)| Case { machine, segs, idle_units, start_t, frames, extender: start_t % 4 == 0 })
 }
 
 pub fn snap_strategy() -> impl Strategy<Value = SnapCase> {
-    (prop_oneof![Just(Machine::K48), Just(Machine::K128)], 0u8..8, 0u8..8).prop_map(|(machine, border, prior)| SnapCase { machine, border, prior })
+    (prop_oneof![Just(Machine::K48), Just(Machine::K128)], 0u8..8, 0u8..8, any::<bool>()).prop_map(|(machine, border, prior, szx)| SnapCase { machine, border, prior, szx })
 }
 
 pub fn run(run: &mut Run) {
@@ -331,7 +365,7 @@ pub fn replay(run: &mut Run, phase: &str, case: &serde_json::Value) -> Result<()
 }
 
 pub const LEVEL: &str = "exploration";
-pub const RULE: &str = "case = machine x looping DI program of 1..40 segments (DJNZ delay 0..255 iterations + 0..5 NOPs, then OUT (0xFE),A or OUT (C),A to a generated even port with any value) plus optional long idle so that some frames contain no write, started at a generated frame offset, run for 2..5 judged frames; the reference machine executes the same program and timestamps every ULA port write; after each completed frame every one of the 27648 border pixels must show a colour that was current within 8 T-states (16 pixels) of the moment the beam was there (change instant = anywhere inside the I/O cycle), and border_color() must equal the low three bits of the last write; second phase: the border stored in a loaded SNA is reported and shown, and a ULA write by the loaded program of the byte the previous program had written last is followed like any other. non-trivial = judged frame with >= 2 colour changes of which >= 1 falls inside the visible border raster (snapshot phase: border differs from the previous one); distinct = hash of (case, frame)";
+pub const RULE: &str = "case = machine x looping DI program of 1..40 segments (DJNZ delay 0..255 iterations + 0..5 NOPs, then OUT (0xFE),A or OUT (C),A to a generated even port with any value) plus optional long idle so that some frames contain no write, started at a generated frame offset, run for 2..5 judged frames, in a quarter of the cases with a host I/O extender attached that claims an unrelated port; the reference machine executes the same program and timestamps every ULA port write; after each completed frame every one of the 27648 border pixels must show a colour that was current within 8 T-states (16 pixels) of the moment the beam was there (change instant = anywhere inside the I/O cycle), and border_color() must equal the low three bits of the last write; second phase: the border stored in a loaded SNA, or in the border field of an SZX whose port-0xFE field differs, is reported and shown, and a ULA write by the loaded program of the byte the previous program had written last is followed like any other. non-trivial = judged frame with >= 2 colour changes of which >= 1 falls inside the visible border raster (snapshot phase: border differs from the previous one); distinct = hash of (case, frame)";
 pub const ASSUMPTIONS: &[&str] = &[
     "write timestamps come from the reference machine (reference Z80 + contention model), trusted through calibration, C03 and C04",
     "border buffer geometry: 320x240, pixel (x,y) at T = first-picture-pixel T + (y-24)*line + (x-32)/2 (property text); the central 256x192 area is not judged; the colour before the first write of a run is not judged",
